@@ -210,6 +210,26 @@ func (fe *FuncEnc) havocModsDirty(st *State, mods map[string]bool, dirty map[str
 			}
 		}
 	}
+	// unescaped locals of the calling frame keep their rows (escape.go)
+	keep := map[string][]Term{}
+	if f := fe.cur; f != nil && f.fn != nil && f.curInstr != nil {
+		for _, v := range fe.eng.unescapedAt(f.fn, f.curInstr) {
+			t, ok := f.vals[v]
+			if !ok {
+				continue
+			}
+			switch vt := v.Type().Underlying().(type) {
+			case *types.Slice:
+				c := "E_" + fe.eng.sorts.elemKey(vt.Elem())
+				keep[c] = append(keep[c], slRef(t))
+			case *types.Map:
+				k := fe.eng.mapKeyOf(vt)
+				for _, pre := range []string{"MD_", "MV_", "MC_"} {
+					keep[pre+k] = append(keep[pre+k], t)
+				}
+			}
+		}
+	}
 	for _, c := range sortStrings(mods) {
 		s, ok := fe.eng.compSorts[c]
 		if !ok {
@@ -221,6 +241,17 @@ func (fe *FuncEnc) havocModsDirty(st *State, mods map[string]bool, dirty map[str
 		}
 		nw := fe.fresh(c+"_"+tag, s)
 		st.heap[c] = nw
+		if refs := keep[c]; len(refs) > 0 {
+			seen := map[string]bool{}
+			for _, r := range refs {
+				if seen[r.S] {
+					continue
+				}
+				seen[r.S] = true
+				fe.assume(tBool(true), tEq(tSelect(nw, r), tSelect(old, r)))
+			}
+			fe.assumes["a slice or map allocated by the current invocation, no reference to which has left its registers on any path to a call, keeps its contents across that call (syntactic escape analysis over go/ssa)"] = true
+		}
 		if owner, ok := fe.eng.compOwner[c]; ok && !fe.eng.notCtorOnly[c] {
 			fe.ctorFrame(st, c, old, nw, preAlloc[owner])
 			fe.assumes["fields only ever written through a pointer to an object allocated in the same invocation (struct literals) keep their value in pre-existing objects across calls and loops (checked syntactically over the whole program)"] = true
@@ -290,6 +321,29 @@ func (fe *FuncEnc) callByContract(f *Frame, callee *ssa.Function, name string, c
 			}
 			goal = tAnd(tLe(tInt(0), M[0]), goal)
 			fe.emit("dec.call", fe.srcLabel(pos, "call"), path, goal, "recursion terminates: measure of "+name+" below the measure of "+fe.name, pos)
+		}
+	}
+	// re-entry through a callee that declares no measure of its own (the evaluator): the caller's measure must have gone
+	// down by the time of the call — otherwise nothing bounds the nesting depth of this cycle (Go stack exhaustion)
+	if f.parent == nil && fe.con != nil && len(fe.con.Decreases) > 0 && len(con.Decreases) == 0 && fe.eng.reaches(callee, fe.fn) {
+		var m []Term
+		for _, d := range fe.con.Decreases {
+			m = append(m, fe.evalClause(f, d, pre, f.entry, nil, nil, pos))
+		}
+		M := fe.entryMeasure
+		if len(M) == len(m) && len(m) > 0 {
+			goal := tBool(false)
+			for i := len(m) - 1; i >= 0; i-- {
+				goal = tOr(tLt(m[i], M[i]), tAnd(tEq(m[i], M[i]), goal))
+			}
+			goal = tAnd(tLe(tInt(0), M[0]), goal)
+			n0 := len(fe.obls)
+			fe.checkOnly = true
+			defer func() { fe.checkOnly = false }()
+			fe.emit("dec.call", fe.srcLabel(pos, "call")+".reentry", path, goal, "the nesting depth of "+fe.name+" through "+name+" is bounded: the declared measure has decreased when "+name+" is entered", pos)
+			for _, o := range fe.obls[n0:] {
+				o.Props = []string{"C07"} // "never dies with a fatal error, whatever nesting of calls the program uses"
+			}
 		}
 	}
 	fe.havocModsDirty(st, fe.eng.modsetOf(callee), fe.eng.dirtyOf(callee), short)
